@@ -12,7 +12,7 @@ TREES = ['maptree', 'settree', 'keytree']
 LISTS = ['maplist', 'setlist', 'keylist']
 ALL = TREES + LISTS + ['seg']
 DEAD = ['PANIC', 'CRASH', 'HANG']          # the operation did not return normally
-MODEL = ['MODELERR', 'RUNNER', 'EXTRACT']
+MODEL = ['MODELERR', 'RUNNER', 'EXTRACT', 'ARENA', 'ARENA_OUT', 'ARENA_ERR']   # ARENA*: the arena-level models against the raw buffer (DESIGN.md 4.6)
 
 AXIOM_ALLOW = set()   # the development is axiom-free; any stdlib axiom needed would be named here
 
@@ -24,7 +24,7 @@ TRUSTED_BASE = [
     'Rust harness /verif/harness and the read-only hooks behind cargo feature itree_verif (commit ea6fd43)',
     'this orchestrator (/verif/check, lib/propdefs.py)',
     'rustc/cargo/std as installed: Vec growth policy, binary_search_by contract, swap_remove, retain',
-    'the hand-written Gallina models (tree level, and the statement-by-statement arena-level transcriptions Model/Arena*.v proved to refine it) are tied to the code only by the correspondence run (DESIGN.md section 8)',
+    'the hand-written Gallina models (tree level, and the statement-by-statement arena-level transcriptions Model/Arena*.v proved to refine it) are tied to the code only by the correspondence run (DESIGN.md section 8); the arena-level models are themselves executed and compared with the raw buffer of the implementation, every field of every slot (DESIGN.md section 4.6)',
 ]
 
 
